@@ -260,6 +260,9 @@ fn c12_mint_from() {
     }
     let bt = s.b[s.idx(&to)];
     kani::assert(model::auth_of(&minter), "VERIF:C07:minting needs the minter's own authorisation");
+    if via_owner {
+        kani::assert(model::auth_of(&s.owner), "VERIF:C06:owner minting needs the current owner's authorisation");
+    }
     kani::assert(was_minter, "VERIF:C12:only current minters can mint");
     kani::assert(amount >= 0, "VERIF:C12:negative amounts are rejected");
     kani::assert(bal(&to) == bt + amount && s.others_unchanged(&to, &to), "VERIF:C12:mint increases exactly one balance (and the supply) by the amount");
